@@ -36,6 +36,11 @@ CHECKS = {
          "Every combination of 13 shapes, all image sizes of a grid that includes non-multiples of every tile size and non-square images, tile-size chains (thorough: all 15 valid chains over {16,8,4,2}), 5 view transforms, slice heights, pixel-perfect on/off, thread pool / none and VM / JIT is rendered by the real renderer; every pixel is compared with the f64 value of the shape at its sample position (sign for decidable pixels, value in pixel-perfect mode); image dimensions must equal the request.",
          "Trusted: f64 evaluation of the same program and the decidability margin 2e-5*(1+magnitude); the pool dimension uses the rayon stand-in's default schedule (schedules are C09's).",
          "DESIGN.md §4 C06"),
+ "C07": ("model_checking",
+         "exhaustive Cartesian product of shapes x voxel grids x tile-size chains x transforms x backends on the real 3D renderer, vs. brute-force column scan and f64 dual-number gradients",
+         "Every combination of 9 shapes (occluding slabs, holes, tilted planes, empty, full, a free variable), voxel grids with width != height != depth incl. non-multiples of every tile size, 7 tile-size chains, 5 view transforms, thread pool / none and VM / JIT is rendered by the real renderer; for every column the depth must equal 1 + the highest decidably negative voxel found by scanning the whole column in f64 (with the documented clamp to the grid depth, counted separately, and the property's exclusion of columns negative beyond the grid top), and the normal of every unclamped surface pixel must match the f64 dual-number gradient of shape o transform at the surface voxel.",
+         "Trusted: f64 evaluation / dual numbers of the same program, decidability margin; pool dimension in the stand-in's default schedule.",
+         "DESIGN.md §4 C07"),
  "C10": ("model_checking",
          "exhaustive enumeration of use histories over real long-lived evaluators / storage pools / workspace, differential oracle against fresh objects",
          "Every sequence of up to 2-3 (quick) / 3-4 (thorough) uses from a 70-use alphabet (4 evaluator kinds x 7 differently shaped functions x 2 inputs with different sample counts, plus simplify-evaluate-recycle) is run through one evaluator per kind, one stack of recycled tape storage (JIT mappings larger and smaller than the next code), one stack of recycled function storage and one workspace, on VM<255>, VM<3> and JIT; every step's outputs, trace and simplified tape must equal bit-for-bit the same call on fresh objects; all RenderHandle simplify/recycle sequences over three traces (cache hit and miss) up to depth 3/4.",
